@@ -211,9 +211,12 @@ def remember(name, ex):
 def make_initializer(spec):
     if not spec:
         return {}
+    cf = spec.get("counter_file")
+    if cf:
+        cf = cf.replace("$CASE", CASEDIR)
     return {
         "initializer": lv_tasks.init,
-        "initargs": (spec.get("token"), spec.get("counter_file"), spec.get("fail_on"), spec.get("leak0", False)),
+        "initargs": (spec.get("token"), cf, spec.get("fail_on"), spec.get("leak0", False)),
     }
 
 
@@ -560,6 +563,53 @@ def op_ns(op, oid, ctx):
         time.sleep(0.02)
 
 
+def op_forget(op, oid, ctx):
+    """Drop every reference the driver itself keeps (C20: only loky's own retention may show)."""
+    with FUT_LOCK:
+        FUTS.clear()
+    EXINFO.clear()
+    MGRS.clear()
+    for n in op.get("ex", []):
+        EXECS.pop(n, None)
+    gc.collect()
+    return {}
+
+
+def op_repeat(op, oid, ctx):
+    for i in range(op["n"]):
+        run_ops(op["body"], ctx)
+    return {"n": op["n"]}
+
+
+def op_exitstatus(op, oid, ctx):
+    """Bare LokyProcesses that end themselves in a given way; Process.exitcode and
+    the sentinel are compared by the oracle with what the child applied to itself."""
+    from multiprocessing.connection import wait as mpwait
+
+    c = get_context(op.get("ctx", "loky"))
+    out = []
+    batch = op.get("batch", 12)
+    todo = list(op["ways"])
+    while todo:
+        cur, todo = todo[:batch], todo[batch:]
+        procs = []
+        for how, code in cur:
+            p = c.Process(target=lv_tasks.die_target, args=(how, code, op.get("hold", 0.15)))
+            p.start()
+            procs.append((how, code, p, time.monotonic()))
+        # sentinel must not be ready while the child is alive (children hold >= hold seconds)
+        early = []
+        for how, code, p, t0 in procs:
+            ready = bool(mpwait([p.sentinel], 0))
+            st, _pp = proc_state(p.pid)
+            early.append([ready, st, time.monotonic() - t0])
+        for (how, code, p, t0), e in zip(procs, early):
+            p.join()
+            ready_after = bool(mpwait([p.sentinel], 0))
+            out.append({"how": how, "code": code, "exitcode": p.exitcode, "sentinel_early": e[0], "state_early": e[1], "age_early": round(e[2], 3), "sentinel_after": ready_after, "pid": p.pid})
+    return {"results": out}
+
+
 def op_set_pickler(op, oid, ctx):
     from loky import set_loky_pickler
 
@@ -727,6 +777,9 @@ OPS = {
     "setenv": op_setenv,
     "tracker": op_tracker,
     "ns": op_ns,
+    "forget": op_forget,
+    "repeat": op_repeat,
+    "exitstatus": op_exitstatus,
 }
 
 
